@@ -18,7 +18,7 @@ def verify(outdir, name):
     first = " ".join(demo.splitlines()[:3])
     m = re.search(r"([\w./-]+_test\.go)", first)
     place = m.group(1)
-    m = re.search(r"(go test .*?\./[\w./-]+/?)", first)
+    m = re.search(r"(go test .*?\./[\w./-]+/?(?:\s+-run\s+'?[\w|^$.*()-]+'?)?)", first)
     cmd = m.group(1).strip()
     wt = "/tmp/seedv-" + name
     sh("git -C /repo worktree remove --force %s" % wt)
